@@ -38,7 +38,13 @@ RULE = ("scenario = generated ROM (prologue, main loop, interrupt handler, subro
         "bundle k1, runs on (gap 0 .. most of the run) and is saved again at k2, a fresh machine loads that "
         "second-generation bundle (and so on for k3); the first bundle is written by the model itself or by the "
         "other implementation; reference = the machine that was saved, running on; distinct = (model, scenario, "
-        "origin, chain prefix).")
+        "origin, chain prefix). Round 5, what the program DOES is a generated dimension: profile call-flow "
+        "builds a call graph (DAG, depth <= 4) of routines spread over the four 64 KiB ROM pages, entered by "
+        "near CALL or CALLF, bodies = work items + calls of further routines + JPF continuations into another "
+        "page, ending in the matching RET/RETF directly or through a shared tail in any page; every near-CALL "
+        "return offset has a JPF pad in the other pages so the program is defined whichever page RET resumes "
+        "in; called from the main loop and from the interrupt handler; every step index inside the graph is a "
+        "snapshot point (labels pt:in-call-graph, pt:flow:<chunk kind>, pt:nested-call, pt:pc-in-other-page).")
 
 MODELS = ("py", "rs")
 
@@ -142,8 +148,20 @@ def instr_class(scen: Dict[str, Any], pc: int) -> str:
     return "unlisted"
 
 
+# Executor bookkeeping kept per call frame (Rust: page recorded by a near CALL, tracked return width).  It is
+# not in the bundle, so it differs after *every* load taken inside a subroutine, with or without consequences;
+# it is therefore never part of `where` (the fingerprints of the known findings would otherwise depend on
+# whether the snapshot point happens to lie in a subroutine) but is shown in the detail text and counted as a
+# label.  A return instruction that resumes elsewhere is named by the symptom instead.
+HIDDEN_PROBES = ("call_frames",)
+
+
 def diff_diag(a: Dict[str, Any], b: Dict[str, Any]) -> List[str]:
-    return sorted(k for k in a if a.get(k) != b.get(k))
+    return sorted(k for k in a if a.get(k) != b.get(k) and k not in HIDDEN_PROBES)
+
+
+def diff_hidden(a: Dict[str, Any], b: Dict[str, Any]) -> List[str]:
+    return [f"{k} orig={a.get(k)} restored={b.get(k)}" for k in HIDDEN_PROBES if k in a and a.get(k) != b.get(k)]
 
 
 # ---------------------------------------------------------------------------------------------------------
@@ -265,8 +283,24 @@ def _sanitize(msg: str) -> str:
     return re.sub(r"[0-9]+", "N", re.sub(r"0x[0-9a-fA-F]+", "H", msg))[:70]
 
 
-def point_labels(model: str, obs: Dict[str, Any], diag: Dict[str, Any], obs_init: Dict[str, Any]) -> List[str]:
+def point_labels(model: str, obs: Dict[str, Any], diag: Dict[str, Any], obs_init: Dict[str, Any],
+                 scen: Optional[Dict[str, Any]] = None) -> List[str]:
     labs: List[str] = []
+    if scen is not None and scen.get("flow"):
+        # control-flow skeleton: where in the generated call graph the snapshot point lies
+        fk = S.flow_kind(scen, int(obs["regs"]["PC"]))
+        if fk is not None:
+            labs.append("pt:in-call-graph")
+            labs.append("pt:flow:" + fk)
+            try:
+                frames = diag.get("interrupt_stack")
+                depth = int(diag.get("call_depth")) - (len(frames) if isinstance(frames, list) else 0)
+                if depth >= 2:
+                    labs.append("pt:nested-call")
+            except Exception:
+                pass
+            if (int(obs["regs"]["PC"]) & 0xF0000) != (S.MAIN & 0xF0000):
+                labs.append("pt:pc-in-other-page")
     if obs["power"] != "running":
         labs.append("pt:" + obs["power"])
     if diag.get("in_interrupt"):
@@ -328,6 +362,7 @@ def judge_restored(model: str, scen: Dict[str, Any], R: List[Dict[str, Any]], dg
     obs per continuation step).  Returns (violation or None, names of the diagnostic probes that differ)."""
     sub = f"{model}:continuation"
     ddiff = diff_diag(dg, b["diag"]) if dg else []
+    hidden = diff_hidden(dg, b["diag"]) if dg else []
     names0, det0 = diff_obs(R[0], b["obs0"])
     # bus probes (region boundaries + strided sample of the whole external space) are memory as a program
     # would read it: an observation, not a diagnostic
@@ -359,6 +394,9 @@ def judge_restored(model: str, scen: Dict[str, Any], R: List[Dict[str, Any]], dg
                     # control-flow or asynchronous effect and gets one generic bucket
                     if "regs.PC" in names or "regs.S" in names:
                         cat = "regs (control flow)"
+                        # a return/call/far jump that itself resumes elsewhere (no delivery involved)
+                        if "irq.stats" not in names and ic.split(" ")[0] in ("RET", "RETF", "CALL", "CALLF", "JPF"):
+                            cat += " after " + ic.split(" ")[0]
                     elif ic.startswith("MV A, (") or ic.startswith("MV A, ["):
                         cat = "regs after " + ic
                     else:
@@ -370,7 +408,8 @@ def judge_restored(model: str, scen: Dict[str, Any], R: List[Dict[str, Any]], dg
             return Violation(sub, where, f"diverges later: {cat}", case,
                              f"{what}; first divergence after continuation step "
                              f"{i + 1} in {sorted(names)}: " + "; ".join(det[:8]) +
-                             f"; internal state differing right after load: {ddiff}"), ddiff
+                             f"; internal state differing right after load: {ddiff}" +
+                             (f"; call-frame bookkeeping differing right after load: {hidden}" if hidden else "")), ddiff
     return None, ddiff
 
 
@@ -399,7 +438,7 @@ def judge_model(model: str, scen: Dict[str, Any], points: List[int], cont: int, 
     for k in points:
         b = res["B"][k]
         dg = res["diags"].get(k, {})
-        labs = point_labels(model, A[k], dg, A[0])
+        labs = point_labels(model, A[k], dg, A[0], scen)
         nt = bool(labs) and continuation_depends(A, k, cont)
         labels = [f"model:{model}", f"profile:{scen.get('profile')}"] + labs
         if not labs:
@@ -416,6 +455,8 @@ def judge_model(model: str, scen: Dict[str, Any], points: List[int], cont: int, 
             labels.append("diverged")
         elif ddiff:
             labels.append("latent-internal-diff")
+        if dg and diff_hidden(dg, b["diag"]):
+            labels.append("call-frame-bookkeeping-not-restored")
         sample = None
         if rep.evaluations % 997 == 5:
             sample = {"model": model, "scenario": scen.get("index"), "profile": scen.get("profile"), "k": k,
@@ -505,7 +546,7 @@ def check_chains(model: str, scen: Dict[str, Any], chains: List[Dict[str, Any]],
                 rep.case(None, labels + ["save-error"])
                 break
             R = link["R"]
-            labs = point_labels(model, R[0], link["ref_diag"], obs_init)
+            labs = point_labels(model, R[0], link["ref_diag"], obs_init, scen)
             if _lcd_of(R[0]) != prev_lcd:
                 labels.append("chain:lcd-changed-since-load")
             prev_lcd = _lcd_of(R[0])
@@ -523,6 +564,8 @@ def check_chains(model: str, scen: Dict[str, Any], chains: List[Dict[str, Any]],
                 labels.append("diverged")
             elif ddiff:
                 labels.append("latent-internal-diff")
+            if link.get("ref_diag") and diff_hidden(link["ref_diag"], link.get("diag") or {}):
+                labels.append("call-frame-bookkeeping-not-restored")
             sample = None
             if rep.evaluations % 499 == 7:
                 sample = {"model": model, "scenario": scen.get("index"), "profile": scen.get("profile"),
@@ -712,7 +755,7 @@ def check_case(case: Dict[str, Any], rep: Report) -> None:
     scen = case
     n, cont = int(scen["n"]), int(scen["k"])
     points = list(case.get("points") or range(0, n + 1))
-    base_case = {key: scen[key] for key in ("rom", "cfg", "events", "n", "k", "profile", "index", "listing")
+    base_case = {key: scen[key] for key in ("rom", "cfg", "events", "n", "k", "profile", "index", "listing", "flow")
                  if key in scen}
     prefix = os.path.join(_scratch_dir(), f"s{scen.get('index', 0)}-")
     try:
@@ -774,7 +817,7 @@ def _shard(task: Tuple[int, int, int, str, int, int, int, int]) -> Report:
 def run(ctx: Ctx) -> Report:
     rsclient.build()
     S.selftest()
-    nscen = ctx.pick(75, 195)
+    nscen = ctx.pick(85, 221)  # 17 profile slots x 5 / x 13
     n = ctx.pick(40, 64)
     cont = ctx.pick(40, 40)
     nshards = 16 if ctx.quick else 64
